@@ -27,7 +27,10 @@
 EXTENDS Integers, Sequences, FiniteSets, TLC
 CONSTANTS MaxN,              \* most results a handler produces
           WrapperConsumes,   \* does the test inside _wrap_handler take the indication off the queue?
-          ReleaseWakesWaiter \* does an arriving A-RELEASE-RQ end a pending wait for a DIMSE response (as A-ABORT does)?
+          ReleaseWakesWaiter,\* does an arriving A-RELEASE-RQ end a pending wait for a DIMSE response (as A-ABORT does)?
+          PauseCoversEncode  \* FALSE (the code): a local send pauses the reactor only around the sending and the wait for the
+                             \* response, and every exit un-pauses it; TRUE: the pause is taken before the data set is encoded,
+                             \* and an encoding failure leaves through an exception that skips the un-pause (refuted)
 
 Services == {"none", "echo", "find", "get", "move", "ascu"}
 \* where the association thread (or, for "ascu", the user thread) is
@@ -36,20 +39,24 @@ VARIABLES svc, n,            \* the request served and how many results its hand
           rel,               \* the peer's release request: "none" "queued" "consumed" "answered"
           at,                \* history: position (and index) at which the request arrived
           est,               \* is_established
-          tmo                \* a DIMSE timeout is configured (dimse_timeout is not None)
-vars == <<svc, n, pc, k, rel, at, est, tmo>>
+          tmo,               \* a DIMSE timeout is configured (dimse_timeout is not None)
+          enc,               \* C-GET: the data set of the last sub-operation cannot be encoded for the accepted context - that
+                             \* sub-operation fails before anything is sent, the operation goes on to its final response
+          paused             \* the reactor is parked by a local send (Association._reactor_checkpoint cleared)
+vars == <<svc, n, pc, k, rel, at, est, tmo, enc, paused>>
 
 Init == /\ svc \in Services
         /\ n \in 0..MaxN
         /\ (svc \in {"none", "echo", "ascu"} => n = 0)
         /\ (svc \in {"get", "move"} => n >= 1)
         /\ pc = "idle" /\ k = 0 /\ rel = "none" /\ at = <<"never", 0>> /\ est = TRUE /\ tmo \in BOOLEAN
+        /\ enc \in BOOLEAN /\ (svc # "get" => enc = FALSE) /\ paused = FALSE
 
 \* ---- environment: the peer's A-RELEASE-RQ arrives (once) at any moment before the end ----
 PeerRelease == /\ rel = "none" /\ pc \notin {"done"}
                /\ (pc = "idle" => svc = "none")      \* (a peer that releases and then sends a request is not considered)
                /\ rel' = "queued" /\ at' = <<pc, k>>
-               /\ UNCHANGED <<tmo, svc, n, pc, k, est>>
+               /\ UNCHANGED <<tmo, svc, n, pc, k, est, enc, paused>>
 
 \* ---- the request arrives and is dispatched (reactor: get_msg -> _serve_request) ----
 Dispatch == /\ pc = "idle"
@@ -59,16 +66,16 @@ Dispatch == /\ pc = "idle"
                        [] svc = "find" -> "check"
                        [] OTHER        -> "prelude"          \* C-GET / C-MOVE handlers first yield the (destination and) number of sub-operations
             /\ k' = IF svc = "find" THEN 1 ELSE 0
-            /\ UNCHANGED <<tmo, svc, n, rel, at, est>>
+            /\ UNCHANGED <<tmo, svc, n, rel, at, est, enc, paused>>
 
 \* the C-GET / C-MOVE handler yields its preliminary values (k = 0: before the first one; C-MOVE k = 1: between destination and
 \* count); the SCP reads them outside the _wrap_handler loop (C-MOVE then opens the association to the destination)
 Prelude == /\ pc = "prelude"
            /\ IF svc = "move" /\ k = 0 THEN pc' = "prelude" /\ k' = 1 ELSE pc' = "check" /\ k' = 1
-           /\ UNCHANGED <<tmo, svc, n, rel, at, est>>
+           /\ UNCHANGED <<tmo, svc, n, rel, at, est, enc, paused>>
 
 \* a plain (non-generator) handler runs and its response is sent (P-DATA is legal in Sta8)
-Handler == /\ pc = "handler" /\ pc' = "between" /\ UNCHANGED <<tmo, svc, n, k, rel, at, est>>
+Handler == /\ pc = "handler" /\ pc' = "between" /\ UNCHANGED <<tmo, svc, n, k, rel, at, est, enc, paused>>
 
 \* _wrap_handler: the handler produces result k (or ends); the "still associated?" test before the yield
 Check == /\ pc = "check"
@@ -80,30 +87,33 @@ Check == /\ pc = "check"
                  ELSE /\ pc' = IF svc = "find" THEN "check" ELSE "sub"   \* pending response, or a sub-operation first
                       /\ UNCHANGED rel
          /\ k' = IF pc' = "check" THEN k + 1 ELSE k
-         /\ UNCHANGED <<tmo, svc, n, at, est>>
+         /\ UNCHANGED <<tmo, svc, n, at, est, enc, paused>>
 
 \* a C-STORE sub-operation: send_c_store() on this or another association; if the release request arrives
 \* meanwhile (this association, C-GET) the wait ends without a response and _handle_no_response leaves it to the reactor
 \* (a peer that has sent its release request does not answer the sub-operation any more: the wait for the C-STORE response
 \*  on THIS association ends by the DIMSE timeout, or at once if the arriving request wakes the waiter)
 WaitEnds == rel # "queued" \/ tmo \/ ReleaseWakesWaiter
-Sub == /\ pc = "sub" /\ (svc = "get" => WaitEnds) /\ pc' = "check" /\ k' = k + 1 /\ UNCHANGED <<tmo, svc, n, rel, at, est>>
+EncodeFails == svc = "get" /\ enc /\ k = n
+Sub == /\ pc = "sub" /\ ((svc = "get" /\ ~EncodeFails) => WaitEnds) /\ pc' = "check" /\ k' = k + 1
+       /\ paused' = (EncodeFails /\ PauseCoversEncode)
+       /\ UNCHANGED <<tmo, svc, n, rel, at, est, enc>>
 
-Final == /\ pc = "final" /\ pc' = "between" /\ UNCHANGED <<tmo, svc, n, k, rel, at, est>>
+Final == /\ pc = "final" /\ pc' = "between" /\ UNCHANGED <<tmo, svc, n, k, rel, at, est, enc, paused>>
 
 \* back in the reactor loop between two messages
-Between == /\ pc = "between" /\ pc' = "reactor" /\ UNCHANGED <<tmo, svc, n, k, rel, at, est>>
+Between == /\ pc = "between" /\ pc' = "reactor" /\ UNCHANGED <<tmo, svc, n, k, rel, at, est, enc, paused>>
 
 \* a user thread of this side waits for the response to its own request with the reactor paused; the wait ends
 \* (response, or no message because the release request arrived) and the reactor resumes
-AscuWait == /\ pc = "ascu_wait" /\ WaitEnds /\ pc' = "reactor" /\ UNCHANGED <<tmo, svc, n, k, rel, at, est>>
+AscuWait == /\ pc = "ascu_wait" /\ WaitEnds /\ pc' = "reactor" /\ UNCHANGED <<tmo, svc, n, k, rel, at, est, enc, paused>>
 
 \* the reactor's own test: takes the indication and answers it
 Reactor == /\ pc = "reactor"
-           /\ IF est /\ rel = "queued"
+           /\ IF est /\ rel = "queued" /\ ~paused
               THEN rel' = "answered" /\ est' = FALSE /\ pc' = "done"
               ELSE UNCHANGED <<rel, est, pc>>
-           /\ UNCHANGED <<svc, n, k, at, tmo>>
+           /\ UNCHANGED <<svc, n, k, at, tmo, enc, paused>>
 
 Next == PeerRelease \/ Dispatch \/ Handler \/ Prelude \/ Check \/ Sub \/ Final \/ Between \/ AscuWait \/ Reactor
 Spec == Init /\ [][Next]_vars
@@ -111,7 +121,7 @@ FairSpec == Spec /\ WF_vars(Dispatch \/ Handler \/ Prelude \/ Check \/ Sub \/ Fi
 
 TypeOK == /\ svc \in Services /\ n \in 0..MaxN /\ k \in 0..(MaxN + 1)
           /\ pc \in {"idle", "handler", "prelude", "check", "sub", "final", "between", "ascu_wait", "reactor", "done"}
-          /\ rel \in {"none", "queued", "consumed", "answered"} /\ est \in BOOLEAN /\ tmo \in BOOLEAN
+          /\ rel \in {"none", "queued", "consumed", "answered"} /\ est \in BOOLEAN /\ tmo \in BOOLEAN /\ enc \in BOOLEAN /\ paused \in BOOLEAN
 
 \* C07 (safety): nobody but the reactor takes the release indication
 C07_NeverSwallowed == rel # "consumed"
@@ -120,5 +130,5 @@ C07_Answered == (rel = "queued") ~> (rel = "answered" /\ ~est)
 
 \* ---- scenario export: every (service, N, arrival point) TLC can reach ----
 Export == (rel = "queued" /\ at # <<"never", 0>>) =>
-             PrintT(<<"CASE", [svc |-> svc, n |-> n, pos |-> at[1], k |-> at[2], tmo |-> tmo]>>)
+             PrintT(<<"CASE", [svc |-> svc, n |-> n, pos |-> at[1], k |-> at[2], tmo |-> tmo, enc |-> enc]>>)
 =============================================================================
